@@ -654,6 +654,48 @@ pub fn check_c01(tier: &str) -> i32 {
     let cfgs = base_cfgs(None);
     let st = explore_sequences("C01", &cfgs, depth, "R", &default_alphabet);
     rep.phase("sequences", st, json!({"depth": depth, "configs": cfgs.len()}));
+    // requests delivered together in one read: what stands behind a request that is answered with an
+    // exception (or not at all) is answered like any other request
+    let mut pjobs: Vec<(ServerCfg, String, Vec<u8>)> = vec![];
+    for rtu in [false, true] {
+        let cfg = ServerCfg { rtu, units: vec![(1, AppSpec::dense())], auth: None, decode: (0, 0, 0) };
+        let firsts: Vec<(&str, u8, Vec<u8>)> = vec![
+            ("unknown-fc", 1, vec![0x41, 1, 2]),
+            ("unknown-fc-high", 1, vec![0x90]),
+            ("count-zero", 1, read_pdu(3, 0, 0)),
+            ("over-limit", 1, read_pdu(3, 0, 126)),
+            ("overflow", 1, read_pdu(1, 0xFFFF, 2)),
+            ("bad-coil-value", 1, vec![5, 0, 1, 0x12, 0x34]),
+            ("other-unit", 9, read_pdu(3, 0, 2)),
+            ("empty", 1, vec![]),
+            ("read", 1, read_pdu(4, 1, 3)),
+            ("write", 1, vec![6, 0, 2, 0xAB, 0xCD]),
+        ];
+        let seconds: Vec<(&str, Vec<u8>)> = vec![("read", read_pdu(3, 0, 4)), ("write", vec![6, 0, 7, 0x12, 0x34])];
+        let mut tx = 0x5000u16;
+        let mut fr = |unit: u8, p: &Vec<u8>| {
+            tx += 1;
+            if rtu {
+                pdu::rtu_frame(unit, p)
+            } else {
+                pdu::mbap_frame(tx, unit, p)
+            }
+        };
+        for (fname, unit, fp) in &firsts {
+            if !framable(rtu, *unit, fp) {
+                continue;
+            }
+            for (sname, sp) in &seconds {
+                pjobs.push((cfg.clone(), format!("{fname}+{sname}"), [fr(*unit, fp), fr(1, sp)].concat()));
+                pjobs.push((cfg.clone(), format!("{fname}+{sname}+{fname}+{sname}"), [fr(*unit, fp), fr(1, sp), fr(*unit, fp), fr(1, sp)].concat()));
+            }
+        }
+    }
+    let pbound = crate::checks::framing::ChunkBound { uniform: true, max_cuts: 1, full_cuts_up_to: 64, all_partitions_up_to: 0 };
+    let st = parallel(pjobs.len(), |i, st| {
+        crate::checks::framing::server_stream_job("C01", &pjobs[i].0, &pjobs[i].1, &pjobs[i].2, pbound, st);
+    });
+    rep.phase("requests delivered together in one read (one reply each, in order)", st, json!({"streams": pjobs.len()}));
     // one reply per request also when the peer reads slowly: production TCP / TLS server over real
     // sockets, requests pipelined until the server's writes block (finding F13)
     let st = crate::checks::sessions::backpressure_stream_phase(rep.thorough(), 1);
@@ -814,6 +856,9 @@ fn c17_alphabet(cfg: &ServerCfg) -> Alphabet {
         ("unicast-write", conf, get("wsr-valid")),
         ("unicast-unconfigured", 77, get("wsr-valid")),
         ("unicast-unconfigured-malformed", 77, get("rc-malformed")),
+        // requests to a configured unit that are answered with exception 03 / 01 without reaching a handler
+        ("unicast-malformed", conf, get("rc-malformed")),
+        ("unicast-unknown-fc", conf, vec![0x2B, 1, 2]),
         ("sentinel-read", last, read_pdu(3, 0, 8)),
         ("sentinel-read-coils", conf, read_pdu(1, 0, 12)),
     ]
@@ -869,7 +914,7 @@ pub fn check_c17(tier: &str) -> i32 {
     rep.phase("destination x kind grid", st, json!({"configs": cfgs.len()}));
     let seq_cfgs: Vec<ServerCfg> = cfgs.iter().filter(|c| !c.units.is_empty()).cloned().collect();
     let st = explore_sequences("C17", &seq_cfgs, depth, "RH", &c17_alphabet);
-    rep.phase("sequences", st, json!({"depth": depth, "configs": seq_cfgs.len(), "alphabet": 12}));
+    rep.phase("sequences", st, json!({"depth": depth, "configs": seq_cfgs.len(), "alphabet": 14}));
     // a broadcast write while the application holds the handler lock of one unit: every schedule
     // of the two threads at the handler-mutex acquisitions (cooperative scheduler of C19)
     let st = crate::checks::ffi::c17_contended_broadcast();
@@ -1072,6 +1117,9 @@ pub fn check_c08(tier: &str) -> i32 {
     // over a real TLS server with authorization: the role is the certificate's, character for character
     let st = crate::checks::tls::c08_tls_phase();
     rep.phase("TLS server with authorization: certificate role x policy role", st, json!({"certificates": 4, "policy_roles": 6}));
+    let st = crate::checks::tls::c08_same_subject_phase();
+    rep.phase("TLS server with authorization: sessions whose certificates differ only in the role", st, json!({"orders": 5, "kept_open": [false, true]}));
+    rep.require_class("tls-authz:same-subject-other-role");
     for c in ["denied", "read-ok", "write-ok", "unconfigured-unit", "unknown-function", "invalid:fc3:count-zero", "tls-authz:allowed", "tls-authz:denied"] {
         rep.require_class(c);
     }
